@@ -345,7 +345,7 @@ Proof.
   - apply Fr_exp_token. - apply Fr_exp_ident. - apply Fr_take_until. - apply Fr_alt; auto.
   - apply Fr_sep_tokens. - apply Fr_sep_list; auto. - apply Fr_until; auto using Kc_add_diag.
   - apply Fr_until_strict; auto. - apply Fr_until_no_match; auto. - apply Fr_binops; auto.
-  - apply Fr_memo; auto. - apply Fr_memo_ok_only; auto.
+  - apply Fr_memo; auto.
   - apply Fr_if_block; auto using Kc_add_diag. - apply Fr_stmt_shape; auto.
 Qed.
 
